@@ -42,7 +42,7 @@ def fa_entry(snap):
 CONTENTS = {
     "A": [("r1", b"ACGTNNACGT", 4), ("r2", b"GGnnA", 5)],
     "B": [("r1", b"ACGTACGTAC", 5)],
-    "C": [("s1", b"NNAC", 2), ("s2", b"A", 1), ("s3", b"ACGTT", 60)],
+    "C": [("s1", b"NNAC", 2), ("s2", b"A", 1), ("m", b"NNN", 2), ("s3", b"ACGTT", 60)],  # "m": a fully masked record
 }
 BIG = [("big%d" % i, (b"ACGTNNNN" * 40), 60) for i in range(30)]  # cache files > 8 KiB
 
@@ -91,7 +91,7 @@ class SeqRunner:
         self.index_buffer = index_buffer
         self.pid = 1000
 
-    def load(self, snap, now, crash_at=None, fresh_process=True):
+    def load(self, snap, now, crash_at=None, fresh_process=True, reuse_obj=None):
         """
         fresh VFS from (snap, now); one auto_load by a fresh virtual pid, killed
         before its crash_at-th file operation if given.  Returns
@@ -118,7 +118,10 @@ class SeqRunner:
         v.install()
         try:
             try:
-                fi = FastaIndex(Path(FA), self.index_buffer)
+                # reuse_obj: auto_load() is called again on an object that has already loaded (it may refuse; it must not
+                # answer with what it loaded before if that is no longer the file's content)
+                fi = reuse_obj if reuse_obj is not None else FastaIndex(Path(FA), self.index_buffer)
+                self.last_obj = fi
                 fi.auto_load()
                 res = ("ok", *observed(fi))
             except Killed:
@@ -157,7 +160,7 @@ class C15(Check):
         "pruning, unbounded preemptions)"
     )
     rule = (
-        "E2p: every history of <= 5 (7) operations replayed inside one process, in-memory state of the library kept between its loads (each load of E2 and each run of E3 starts from a fresh library state). E2: states = (FASTA content in {A,B,C}, .fai/.agp bytes or absent, order relation of the three mtimes and the clock); transitions = tick, "
+        "E2p: every history of <= 5 (7) operations (load by a new object, auto_load again on the history's first object, rewrite, rm .fai, rm .agp) replayed inside one process, in-memory state of the library kept between its loads (each load of E2 and each run of E3 starts from a fresh library state). E2: states = (FASTA content in {A,B,C}, .fai/.agp bytes or absent, order relation of the three mtimes and the clock); transitions = tick, "
         "rewrite(X != current, mtime = now), rm .fai, rm .agp, load, load crashed before its k-th file operation for every k; BFS to fixpoint, for stream "
         "buffer sizes {16, 1}, one 8192-buffer run on a cache > 8 KiB, and one run (contents {A,B}) in which the FASTA path is a symbolic link made once and the bytes are rewritten at its target. Invariant after every load: raised, or index and assembly == reference of the "
         "current content; if the cache was missing or not strictly newer, both cache files were (re)written by this load. E3: 2 and 3 virtual processes (in further runs one of them crashes at any of its file operations) "
@@ -193,7 +196,7 @@ class C15(Check):
             out.append(("e2", b))
         out.append(("e2big", 8192))
         out.append(("e2link", 16))
-        for first in range(5):
+        for first in range(6):
             out.append(("e2p", 5 if tier == "quick" else 7, first))
         pres = ("none", "stale", "valid", "fai-only")
         for pre in pres:
@@ -345,14 +348,14 @@ class C15(Check):
         import itertools
 
         # the clock advances after every operation here (equal-mtime coincidences are the business of E2)
-        alphabet = [("load",), ("rewrite", "B"), ("rewrite", "A"), ("rm", "fai"), ("rm", "agp")]
+        alphabet = [("load",), ("rewrite", "B"), ("rewrite", "A"), ("rm", "fai"), ("rm", "agp"), ("reload",)]
         runner = SeqRunner(16)
         hists = [tuple(tuple(o) for o in replay_hist)] if replay_hist is not None else (
             (alphabet[first], *rest) for k in range(0, depth) for rest in itertools.product(alphabet, repeat=k)
         )
         n = 0
         for hist in hists:
-            if sum(1 for o in hist if o[0] == "load") < 2 and replay_hist is None:
+            if sum(1 for o in hist if o[0] in ("load", "reload")) < 2 and replay_hist is None:
                 continue  # in-process state can only matter from the second load on
             n += 1
             reset_library_caches()
@@ -360,6 +363,7 @@ class C15(Check):
             v0.put(FA, reference("A")[0], mtime=1)
             snap, now = v0.snapshot(), 2
             cid = "A"
+            first_obj = None
             case = ["e2p", [list(o) for o in hist]]
             ctx.cur = case
             ctx.evaluations += 1
@@ -374,7 +378,10 @@ class C15(Check):
                     tgt = FAI if op[1] == "fai" else AGP
                     snap = tuple(x for x in snap if x[0] != tgt)
                 else:
-                    res, _pts, snap, _log, _f = runner.load(snap, now, None, fresh_process=False)
+                    # "reload": the object of the history's first load is asked again
+                    res, _pts, snap, _log, _f = runner.load(snap, now, None, fresh_process=False, reuse_obj=first_obj if op[0] == "reload" else None)
+                    if first_obj is None:
+                        first_obj = runner.last_obj
                     kk = judge(cid, res)
                     if kk:
                         ctx.violation(kk + "/same-process", ["e2p", [list(o) for o in hist[: k + 1]]], f"content {cid}: got {res!r}")
